@@ -12,7 +12,6 @@ import (
 	"verif/cfg"
 	"verif/core"
 	"verif/oracle"
-	"verif/wl"
 )
 
 // C06 — output is a pure function of configuration and source (histories on shared instances).
@@ -303,7 +302,7 @@ func runC06(c *core.Ctx) {
 	}
 	nphase := len(s.docs)
 	for i := 0; i < c.N(150, 3000); i++ {
-		s.docs = append(s.docs, wl.Mix(r, corpus))
+		s.docs = append(s.docs, mixDoc(r, corpus))
 	}
 
 	// phase (i): configurations come into existence one by one, in a worker-specific order
